@@ -83,10 +83,15 @@ def postBody (c : Cfg) (st : St) (k : Kind) (sess : Option Sid) : St × Out :=
       | _ => (st, ⟨500, none, []⟩)
     | _, _ => (st, ⟨202, hdr, []⟩)
   | .notifOther => (st, ⟨202, hdr, []⟩)
-  | .response | .responseEmpty =>
+  | .response =>
     match sess with
     | none => (st, ⟨404, none, []⟩)
     | some _ => (st, ⟨202, hdr, []⟩)
+  | .responseEmpty =>
+    -- an id with neither method nor result nor error is refused (it used to be accepted with an empty 202)
+    match sess with
+    | none => (st, ⟨404, none, []⟩)
+    | some _ => (st, ⟨400, none, []⟩)
   | .invalid => (st, ⟨400, none, []⟩)
 
 def noSessGet (c : Cfg) (st : St) : St × Out :=
